@@ -137,6 +137,24 @@ def power_requests(tier):
     return out if tier == "thorough" else out[::2]
 
 
+def explicit_edt(drv, tier):
+    """sequences (and single sends) in which the application sends ENABLE DEVICE TYPE itself, before / between commands
+    that need a device type: every such command still goes out with its own prefix directly in front of it"""
+    out = []
+    units = ([["edt6", 1], ["qdt6", 2], ["cfgdt6", 3], ["dapc", 4], ["qdt6", 5]],
+             [["edt6", 1], ["qdt6", 2], ["qdt6", 3]],
+             [["qdt6", 1], ["edt6", 2], ["dapc", 3], ["cfgdt6", 4], ["qdt6", 5]],
+             [["edt1", 1], ["qdt6", 2], ["edt6", 3], ["qdt1", 4], ["qdt1", 5]])
+    for unit in units:
+        for mode in ("sequence", "send"):
+            for plan in ([1] * 40, [-1]):
+                out.append({"driver": drv, "release_plan": list(plan), "outcomes": [["val", 11], ["none", 0], ["val", 99]],
+                            "callers": [{"name": "A", "mode": mode, "unit": unit, "start": {"time": 0.0}},
+                                        {"name": "B", "mode": "send", "unit": [["qdt6", 9], ["q16", 10]], "start": {"writes": 2}}],
+                            "tag": "explicit-edt"})
+    return out
+
+
 def scenarios(tier, seed, drivers_=("tridonic", "hasseb", "luba", "sci")):
     rng = random.Random(seed)
     scs = []
@@ -150,6 +168,7 @@ def scenarios(tier, seed, drivers_=("tridonic", "hasseb", "luba", "sci")):
         scs += sysm
         scs += cancel_queued(drv, tier)
         scs += bad_close(drv, tier)
+        scs += explicit_edt(drv, tier)
         if drv == "tridonic":
             scs += power_requests(tier)
     return scs
